@@ -64,6 +64,43 @@ theorem align_keeps (v : Variant) (q : EncodeQueue) (vis fin : List Byte) (ms : 
   rw [ring_len_eta r' _ (by rw [hl', h.len])]
   exact ⟨hwf', by rw [hc']; exact h.winv⟩
 
+/-- **direct data append** (`mpt_queue_push` without encoder) on any ring state with `done + scratch = data.len`:
+    the first `min free len` bytes are appended and counted as open data; a full queue refuses with
+    `MissingBuffer`; the terminating call turns everything into finished data -/
+theorem pushRaw_spec (q : EncodeQueue) (hc : q.codec = none) (hwf : q.ring.WF) (hl : q.st.done + q.st.scratch = q.ring.len) :
+    (∃ out, queuePush q none = .ok out ∧ out.ret = (q.ring.len : Nat) ∧ out.q.ring = q.ring ∧
+        out.q.st.done = q.ring.len ∧ out.q.st.scratch = 0) ∧
+    (∀ bytes, ∃ out, queuePush q (some bytes) = .ok out ∧
+      ((q.ring.len = q.ring.store.length ∧ out.ret = Err.MissingBuffer.code ∧ out.q = q) ∨
+       (q.ring.len < q.ring.store.length ∧ out.ret = ((min (q.ring.store.length - q.ring.len) bytes.length : Nat) : Int) ∧
+          out.q.ring.WF ∧ out.q.ring.store.length = q.ring.store.length ∧
+          out.q.ring.content = q.ring.content ++ bytes.take (min (q.ring.store.length - q.ring.len) bytes.length) ∧
+          out.q.st.done = q.st.done ∧
+          out.q.st.scratch = q.st.scratch + min (q.ring.store.length - q.ring.len) bytes.length))) := by
+  constructor
+  · unfold queuePush pushRaw
+    rw [hc]
+    exact ⟨_, rfl, rfl, rfl, rfl, rfl⟩
+  · intro bytes
+    unfold queuePush pushRaw
+    rw [hc]
+    simp only [Ring.max]
+    rw [if_neg (by omega)]
+    by_cases hfull : q.ring.store.length - q.ring.len = 0
+    · rw [if_pos hfull]
+      exact ⟨_, rfl, Or.inl ⟨by have := hwf.1; omega, rfl, rfl⟩⟩
+    · rw [if_neg hfull]
+      have htl : (bytes.take (min (q.ring.store.length - q.ring.len) bytes.length)).length
+          = min (q.ring.store.length - q.ring.len) bytes.length := by
+        rw [List.length_take]; omega
+      obtain ⟨r', c, he, hwf', hs', hc'⟩ := Ring.qpush_ok q.ring hwf (min (q.ring.store.length - q.ring.len) bytes.length)
+        (some (bytes.take (min (q.ring.store.length - q.ring.len) bytes.length))) (by omega) (by omega)
+      rw [he]
+      have hsrc := Ring.setSrc_some' (bytes.take (min (q.ring.store.length - q.ring.len) bytes.length))
+      rw [htl] at hsrc
+      rw [hsrc] at hc'
+      exact ⟨_, rfl, Or.inr ⟨by omega, rfl, hwf', hs', hc', rfl, rfl⟩⟩
+
 /-! ### histories -/
 
 /-- operations on the sender side -/
